@@ -207,23 +207,23 @@ Print Assumptions C18_list_solid_inner_rows.
    5 bytes of target; d: directory.  Wrong password: with --solid the command fails, without it nothing changes *)
 Theorem C18_list_example :
   ls_list ls_pw true = Ok
-    [(lit "a.txt", (10, 10), (lit "10", lit "10")); (lit "s/in", (7, 7), (lit "7", lit "7"));
-     (lit "s/enc", (5, 21), (lit "5", lit "21")); (lit "b.bin", (20, 48), (lit "20", lit "48"));
-     (lit "l", (0, 5), (lit "-", lit "5")); (lit "d", (0, 0), (lit "-", lit "0"))] /\
+    [(lit "a.txt", (Some 10, 10), (lit "10", lit "10")); (lit "s/in", (Some 7, 7), (lit "7", lit "7"));
+     (lit "s/enc", (Some 5, 21), (lit "5", lit "21")); (lit "b.bin", (Some 20, 48), (lit "20", lit "48"));
+     (lit "l", (None, 5), (lit "-", lit "5")); (lit "d", (None, 0), (lit "-", lit "0"))] /\
   ls_list ls_pw false = Ok
-    [(lit "a.txt", (10, 10), (lit "10", lit "10")); (lit "b.bin", (20, 48), (lit "20", lit "48"));
-     (lit "l", (0, 5), (lit "-", lit "5")); (lit "d", (0, 0), (lit "-", lit "0"))] /\
+    [(lit "a.txt", (Some 10, 10), (lit "10", lit "10")); (lit "b.bin", (Some 20, 48), (lit "20", lit "48"));
+     (lit "l", (None, 5), (lit "-", lit "5")); (lit "d", (None, 0), (lit "-", lit "0"))] /\
   ls_list (lit "no") false = ls_list ls_pw false /\
   ls_list (lit "no") true = Err InvalidData.
 Proof. exact ls_listing. Qed.
 Check C18_list_example :
   ls_list ls_pw true = Ok
-    [(lit "a.txt", (10, 10), (lit "10", lit "10")); (lit "s/in", (7, 7), (lit "7", lit "7"));
-     (lit "s/enc", (5, 21), (lit "5", lit "21")); (lit "b.bin", (20, 48), (lit "20", lit "48"));
-     (lit "l", (0, 5), (lit "-", lit "5")); (lit "d", (0, 0), (lit "-", lit "0"))] /\
+    [(lit "a.txt", (Some 10, 10), (lit "10", lit "10")); (lit "s/in", (Some 7, 7), (lit "7", lit "7"));
+     (lit "s/enc", (Some 5, 21), (lit "5", lit "21")); (lit "b.bin", (Some 20, 48), (lit "20", lit "48"));
+     (lit "l", (None, 5), (lit "-", lit "5")); (lit "d", (None, 0), (lit "-", lit "0"))] /\
   ls_list ls_pw false = Ok
-    [(lit "a.txt", (10, 10), (lit "10", lit "10")); (lit "b.bin", (20, 48), (lit "20", lit "48"));
-     (lit "l", (0, 5), (lit "-", lit "5")); (lit "d", (0, 0), (lit "-", lit "0"))] /\
+    [(lit "a.txt", (Some 10, 10), (lit "10", lit "10")); (lit "b.bin", (Some 20, 48), (lit "20", lit "48"));
+     (lit "l", (None, 5), (lit "-", lit "5")); (lit "d", (None, 0), (lit "-", lit "0"))] /\
   ls_list (lit "no") false = ls_list ls_pw false /\
   ls_list (lit "no") true = Err InvalidData.
 Print Assumptions C18_list_example.
